@@ -432,7 +432,7 @@ def iterator_rule(ck, facts):
                 if l == 1 and len(path2) >= 2 and path2[-1].endswith(":b"):
                     m = re.match(r"f(\d+):", path2[0])
                     if m:
-                        flags[int(m.group(1))] = (bi, bs[1])
+                        flags.setdefault(int(m.group(1)), []).append((bi, bs[1]))
                 # negated test: `if !self.k.b { continue }`
             elif bs and bs[0][0] == "rvalue":
                 pass
@@ -442,7 +442,8 @@ def iterator_rule(ck, facts):
                 ck.bad("R1.5", key + "#no-flag-test:position%d" % k, "%s::next does not test the match flag of position %d" % (short, k), nxt.loc)
                 continue
             for sb in somes:
-                if not edge_dominates(nxt, flags[fi], sb):
+                # one of the tests of this flag (there may be others, e.g. inside a debug_assert!) guards the return
+                if not any(edge_dominates(nxt, e, sb) for e in flags[fi]):
                     ck.bad("R1.5", key + "#unflagged-return:position%d" % k, "%s::next can return a row without the flag of position %d being true" % (short, k), nxt.loc)
         if not any(f.key.startswith(key) for f in ck.findings):
             ck.ok("R1.5", "%s: %d cached positions %s, uninit=%s, guards/flags consistent" % (short, nmatch, sorted(field_pos.values()), sorted(field_pos[i] for i in uninit)))
